@@ -1644,6 +1644,211 @@ theorem chained_of_steps (hvt : VtLossless vt) :
       | cons _ _ => simp [VisitorsOf] at hvs
     · simpa [editAllD] using hch
 
+/-! ### an executable check of the domain, proved sound
+
+`inDomainB` decides a sufficient condition for `InDomain` (the decomposition `pre ++ hit :: post` is found by
+cutting at the first child of the awaited name); the driver evaluates it on every generated case, and concrete
+end-to-end instances are obtained by evaluation. -/
+
+def neutralB (P : List Bytes) (t : Tok) : Bool := !isTagKind t.kind || !P.contains t.name
+
+theorem neutralB_sound {P : List Bytes} {t : Tok} (h : neutralB P t = true) : NeutralTok P t := by
+  intro hk hm
+  unfold neutralB at h
+  rw [hk] at h
+  simp at h
+  exact h hm
+
+theorem all_neutralB_sound {P : List Bytes} {toks : List Tok} (h : toks.all (neutralB P) = true) :
+    ∀ t ∈ toks, NeutralTok P t :=
+  fun t ht => neutralB_sound (List.all_eq_true.mp h t ht)
+
+/-- nesting depth walk of `append_child`: `none` = the level would be closed -/
+def balWalk : List Tok → Nat → Option Nat
+  | [], d => some d
+  | t :: ts, d =>
+    if t.kind = .startTag then (if isVoid t.name then balWalk ts d else balWalk ts (d + 1))
+    else if t.kind = .endTag then (match d with | 0 => none | d' + 1 => balWalk ts d')
+    else balWalk ts d
+
+theorem balWalk_sound : ∀ (toks : List Tok) (d d' : Nat), balWalk toks d = some d' →
+    ∀ (child : Bytes) (more : List Tok) (rest : Bytes) (l : Int) (out : Bytes), 1 ≤ l →
+      appendChildGo child (toks ++ more) rest (l + d) out =
+        appendChildGo child more rest (l + d') (out ++ rawsOf toks)
+  | [], d, d', h, child, more, rest, l, out, _ => by
+    simp [balWalk] at h; subst h; simp [rawsOf]
+  | t :: ts, d, d', h, child, more, rest, l, out, hl => by
+    unfold balWalk at h
+    simp only [List.cons_append]
+    rw [appendChildGo]
+    by_cases hs : t.kind = .startTag
+    · rw [if_pos hs] at h
+      by_cases hv : isVoid t.name = true
+      · rw [if_pos hv] at h
+        simp only [hs, hv, if_true, reduceCtorEq, if_false]
+        rw [balWalk_sound ts d d' h child more rest l _ hl, rawsOf_cons, List.append_assoc]
+      · rw [if_neg hv] at h
+        simp only [hs, hv, if_true, reduceCtorEq, if_false, Bool.false_eq_true]
+        have e : l + (d : Int) + 1 = l + ((d + 1 : Nat) : Int) := by push_cast; omega
+        rw [e, balWalk_sound ts (d + 1) d' h child more rest l (out ++ t.raw) hl, rawsOf_cons,
+          List.append_assoc]
+    · rw [if_neg hs] at h
+      by_cases he : t.kind = .endTag
+      · rw [if_pos he] at h
+        cases d with
+        | zero => simp at h
+        | succ d0 =>
+          simp only at h
+          have hz : (l + ((d0 + 1 : Nat) : Int)) - 1 ≠ 0 := by push_cast; omega
+          simp only [hs, he, if_false, if_true, hz]
+          have e : l + ((d0 + 1 : Nat) : Int) - 1 = l + (d0 : Int) := by push_cast; omega
+          rw [e, balWalk_sound ts d0 d' h child more rest l (out ++ t.raw) hl, rawsOf_cons,
+            List.append_assoc]
+      · rw [if_neg he] at h
+        simp only [hs, he, if_false]
+        rw [balWalk_sound ts d d' h child more rest l _ hl, rawsOf_cons, List.append_assoc]
+
+theorem bal_of_walk {toks : List Tok} (h : balWalk toks 0 = some 0) : Bal toks := by
+  intro child more rest l out hl
+  have := balWalk_sound toks 0 0 h child more rest l out hl
+  simpa using this
+
+/-- cut a children list at the first element named `a` -/
+def cutAt (a : Bytes) : List Node → Option (List Node × (Bytes × Bytes × ElKind × List Node) × List Node)
+  | [] => none
+  | n :: ns =>
+    match n with
+    | .el nm d at_ knd cs =>
+      if nm = a then some ([], (d, at_, knd, cs), ns)
+      else (cutAt a ns).map fun r => (n :: r.1, r.2.1, r.2.2)
+    | .verb _ _ => (cutAt a ns).map fun r => (n :: r.1, r.2.1, r.2.2)
+
+theorem cutAt_sound {a : Bytes} : ∀ {ns pre post : List Node} {d at_ : Bytes} {knd : ElKind} {cs : List Node},
+    cutAt a ns = some (pre, (d, at_, knd, cs), post) → ns = pre ++ Node.el a d at_ knd cs :: post
+  | [], _, _, _, _, _, _, h => by simp [cutAt] at h
+  | n :: ns, pre, post, d, at_, knd, cs, h => by
+    unfold cutAt at h
+    cases n with
+    | verb r m =>
+      simp only [Option.map_eq_some_iff] at h
+      obtain ⟨r', hr', he⟩ := h
+      obtain ⟨p', ⟨d', a', k', c'⟩, q'⟩ := r'
+      simp only [Prod.mk.injEq] at he
+      obtain ⟨h1, ⟨h2, h3, h4, h5⟩, h6⟩ := he
+      subst h1 h2 h3 h4 h5 h6
+      rw [cutAt_sound hr']; rfl
+    | el nm d0 at0 knd0 cs0 =>
+      simp only at h
+      by_cases hnm : nm = a
+      · rw [if_pos hnm] at h
+        simp only [Option.some.injEq, Prod.mk.injEq] at h
+        obtain ⟨h1, ⟨h2, h3, h4, h5⟩, h6⟩ := h
+        subst h1 h2 h3 h4 h5 h6 hnm
+        rfl
+      · rw [if_neg hnm] at h
+        simp only [Option.map_eq_some_iff] at h
+        obtain ⟨r', hr', he⟩ := h
+        obtain ⟨p', ⟨d', a', k', c'⟩, q'⟩ := r'
+        simp only [Prod.mk.injEq] at he
+        obtain ⟨h1, ⟨h2, h3, h4, h5⟩, h6⟩ := he
+        subst h1 h2 h3 h4 h5 h6
+        rw [cutAt_sound hr']; rfl
+
+def freeLB (P : List Bytes) (ns : List Node) : Bool := (tokensOfList vt ns).all (neutralB P)
+
+theorem freeLB_sound {P : List Bytes} {ns : List Node} (h : freeLB vt P ns = true) : FreeL vt P ns :=
+  all_neutralB_sound h
+
+def targetAPB (P : List Bytes) (cur d at_ : Bytes) (knd : ElKind) (cs : List Node) : Bool :=
+  (knd == .normal || knd == .raw) && !isVoid cur && (innerToks vt knd cs).all (neutralB P) &&
+  (!selOn sel || decide (tk (serialize (.el cur d at_ knd cs)) = (tokensOf vt (.el cur d at_ knd cs), []))) &&
+  (!selOn sel || k != .append || decide (balWalk (innerToks vt knd cs) 0 = some 0))
+
+theorem targetAPB_sound {P : List Bytes} {cur d at_ : Bytes} {knd : ElKind} {cs : List Node}
+    (h : targetAPB tk k sel vt P cur d at_ knd cs = true) : TargetAP tk k sel vt P cur d at_ knd cs := by
+  unfold targetAPB at h
+  simp only [Bool.and_eq_true, Bool.or_eq_true, beq_iff_eq, Bool.not_eq_true', bne_iff_ne, ne_eq,
+    decide_eq_true_eq] at h
+  obtain ⟨⟨⟨⟨h1, h2⟩, h3⟩, h4⟩, h5⟩ := h
+  refine ⟨h1, h2, all_neutralB_sound h3, ?_, ?_⟩
+  · intro hs
+    rcases h4 with h4 | h4
+    · rw [hs] at h4; cases h4
+    · exact h4
+  · intro hs hk
+    rcases h5 with (h5 | h5) | h5
+    · rw [hs] at h5; cases h5
+    · exact absurd hk h5
+    · exact bal_of_walk h5
+
+def childDomAPB (P : List Bytes) : List Bytes → Bytes → Bytes → Bytes → ElKind → List Node → Bool
+  | [], cur, d, at_, knd, cs => targetAPB tk k sel vt P cur d at_ knd cs
+  | a :: rest, cur, _, _, knd, cs =>
+    knd == .normal && !isVoid cur &&
+    (match cutAt a cs with
+     | none => false
+     | some (pre, (d', at', knd', cs'), post) =>
+       freeLB vt P pre && freeLB vt P post && childDomAPB P rest a d' at' knd' cs')
+
+theorem childDomAPB_sound {P : List Bytes} : ∀ (after : List Bytes) (cur d at_ : Bytes) (knd : ElKind)
+    (cs : List Node), childDomAPB tk k sel vt P after cur d at_ knd cs = true →
+      ChildDomAP tk k sel vt P after cur d at_ knd cs
+  | [], cur, d, at_, knd, cs, h => targetAPB_sound tk k sel vt h
+  | a :: rest, cur, d, at_, knd, cs, h => by
+    unfold childDomAPB at h
+    simp only [Bool.and_eq_true, beq_iff_eq, Bool.not_eq_true'] at h
+    obtain ⟨⟨h1, h2⟩, h3⟩ := h
+    cases hc : cutAt a cs with
+    | none => rw [hc] at h3; cases h3
+    | some r =>
+      obtain ⟨pre, ⟨d', at', knd', cs'⟩, post⟩ := r
+      rw [hc] at h3
+      simp only [Bool.and_eq_true] at h3
+      exact ⟨h1, h2, pre, d', at', knd', cs', post, cutAt_sound hc, freeLB_sound vt h3.1.1,
+        freeLB_sound vt h3.1.2, childDomAPB_sound rest a d' at' knd' cs' h3.2⟩
+
+mutual
+  def anyDomAPB (P : List Bytes) (p1 : Bytes) (ps : List Bytes) : Node → Bool
+    | .verb raw _ => (vt raw).all (neutralB P)
+    | .el nm d at_ knd cs =>
+      if nm = p1 then childDomAPB tk k sel vt P ps p1 d at_ knd cs
+      else !P.contains nm &&
+        (match knd with
+         | .normal => anyDomAPListB P p1 ps cs
+         | _ => true)
+  def anyDomAPListB (P : List Bytes) (p1 : Bytes) (ps : List Bytes) : List Node → Bool
+    | [] => true
+    | n :: ns => anyDomAPB P p1 ps n && anyDomAPListB P p1 ps ns
+end
+
+mutual
+  theorem anyDomAPB_sound {P : List Bytes} {p1 : Bytes} {ps : List Bytes} :
+      ∀ n : Node, anyDomAPB tk k sel vt P p1 ps n = true → AnyDomAP tk k sel vt P p1 ps n
+    | .verb raw _, h => by
+      unfold AnyDomAP
+      exact all_neutralB_sound (by simpa [anyDomAPB] using h)
+    | .el nm d at_ knd cs, h => by
+      unfold anyDomAPB at h
+      unfold AnyDomAP
+      by_cases hnm : nm = p1
+      · rw [if_pos hnm] at h ⊢
+        exact childDomAPB_sound tk k sel vt ps p1 d at_ knd cs h
+      · rw [if_neg hnm] at h ⊢
+        simp only [Bool.and_eq_true, Bool.not_eq_true'] at h
+        refine ⟨by simpa using h.1, ?_⟩
+        cases knd with
+        | normal => exact anyDomAPListB_sound cs h.2
+        | _ => trivial
+  theorem anyDomAPListB_sound {P : List Bytes} {p1 : Bytes} {ps : List Bytes} :
+      ∀ ns : List Node, anyDomAPListB tk k sel vt P p1 ps ns = true → AnyDomAPList tk k sel vt P p1 ps ns
+    | [], _ => by unfold AnyDomAPList; trivial
+    | n :: ns, h => by
+      unfold anyDomAPListB at h
+      unfold AnyDomAPList
+      simp only [Bool.and_eq_true] at h
+      exact ⟨anyDomAPB_sound n h.1, anyDomAPListB_sound ns h.2⟩
+end
+
 end
 
 end Rio.Filter
